@@ -17,6 +17,7 @@ EventOK(e) ==
     /\ e.nsteps = 1
     /\ e.kind = Want(e).kind                    \* never a different kind
     /\ (Want(e).kind = "unknown" => (e.warn /\ e.sentinel = Want(e).sentinel))   \* reported, with the right reason
+    /\ e.nfb = e.nunk                                                              \* ... every unknown step of the sequence by a report of its own
 
 Init == l = 1 /\ bad = {}
 Next == /\ l <= N
